@@ -157,3 +157,22 @@ pub fn secp_valid_entry(pairs: &[(Vec<u8>, Vec<u8>)]) -> bool {
         .and_then(|i| i.as_str().map(|s| crypto::secp_pk_valid(s) || (s.len() == 65 && s[0] == 4 && secp256k1::PublicKey::from_slice(s).is_ok())))
         .unwrap_or(false)
 }
+
+/// The state of the recorded known finding, independent of which call produced it: a CombinedKey
+/// record that carries a `secp256k1` entry CombinedKey resolves as its key, while its signature is
+/// an Ed25519 signature under its `ed25519` entry (i.e. the last signer was the ed25519 variant).
+pub fn known_combined_state(fam: FamId, s: &Snap) -> bool {
+    if !matches!(fam, FamId::CombinedSecp | FamId::CombinedEd) || !secp_valid_entry(&s.pairs) {
+        return false;
+    }
+    let ed = s
+        .pairs
+        .iter()
+        .find(|(k, _)| k == b"ed25519")
+        .and_then(|(_, v)| rlp::decode_exact(v).ok())
+        .and_then(|i| i.as_str().map(|b| b.to_vec()));
+    match ed {
+        Some(pk) if crypto::ed_pk_valid(&pk) => record::verify_fields(Scheme::Ed, &pk, s.seq, &s.pairs, &s.sig) == Verdict::Valid,
+        _ => false,
+    }
+}
